@@ -246,6 +246,21 @@ func (p *Program) verifyFunction(fc *FuncContract, fn *ssa.Function) *VC {
 		params[prm.Name()] = t
 		x.assumeAllocated(entry, st, t)
 	}
+	// A6: distinct slice parameters of one function do not share a backing array (unless one has no capacity)
+	for i, pi := range fn.Params {
+		si, ok := types.Unalias(pi.Type()).Underlying().(*types.Slice)
+		if !ok {
+			continue
+		}
+		for _, pj := range fn.Params[i+1:] {
+			sj, ok := types.Unalias(pj.Type()).Underlying().(*types.Slice)
+			if !ok || !types.Identical(si.Elem(), sj.Elem()) {
+				continue
+			}
+			a, b := fr.vals[pi].S, fr.vals[pj].S
+			entry.assume(mkOr(app("=", app("s.cap", a), "0"), app("=", app("s.cap", b), "0"), mkNot(app("=", app("s.arr", a), app("s.arr", b)))))
+		}
+	}
 	for _, fv := range fn.FreeVars {
 		t := x.fresh("fv_"+fv.Name(), fv.Type())
 		fr.vals[fv] = t
